@@ -316,7 +316,9 @@ func runSignTape(fx *world.Fixture, p tPlan, root string, stepCheck bool) *tObs 
 			}
 			hist("answer b%d by %d", a.b, a.i)
 		case "fail":
-			data, _ := json.Marshal(requests.SignatureProposalConfirmationErrorRequest{ParticipantId: a.i, Error: requests.NewFSMError(fmt.Errorf("machine failure")), CreatedAt: time.Now()})
+			data, _ := json.Marshal(requests.SignatureProposalConfirmationErrorRequest{ParticipantId: a.i, Error: requests.NewFSMError(fmt.Errorf("machine failure")),
+				// the reporter's clock: exact, a little behind, ahead, or minutes behind the other machines'
+				CreatedAt: time.Now().Add(time.Duration([]int{0, -40, 25, -3, 0, -600}[(a.i+a.b)%6]) * time.Second)})
 			w.PostSigned(a.i, fx.Round, "event_signing_partial_sign_error_received", data, "")
 			reported[fmt.Sprintf("%d/%d", a.b, a.i)] = true
 			hist("error report by %d (batch %d open)", a.i, a.b)
